@@ -325,8 +325,10 @@ def gen_fault_programs(kinds, ops, tier, interrupts=False, ignore_exc=False, see
                        warm_modes=(False, True), quick_stride=2):
     """Programs = [warm-up] + faulted call + tick + follow-up calls, for every single-fault plan of
     every (op, noreply) on the given stacks.  quick: each (op, plan) runs on a rotating subset."""
+    import random as _random
     progs = []
     n = seed
+    pick = _random.Random(seed * 7919 + len(kinds))
     for op, nrs in ops:
         for nr in nrs:
             for warm in warm_modes:
@@ -341,8 +343,8 @@ def gen_fault_programs(kinds, ops, tier, interrupts=False, ignore_exc=False, see
                         raise common.MachineryError(f"fault-free run of {op} on {kind} failed: {e!r}")
                     for pi, plan in enumerate(plans):
                         n += 1
-                        if tier == "quick" and (n % quick_stride) != 0:
-                            continue
+                        if tier == "quick" and quick_stride > 1 and pick.random() >= 1.0 / quick_stride:
+                            continue      # seeded random sample (a strided walk would alias with the plan order)
                         fus = [FOLLOWUPS[n % len(FOLLOWUPS)]] if tier == "quick" else FOLLOWUPS[: 2 + (n % 2)]
                         for fu in fus:
                             steps = [("call", w[0], w[1], None, "all") for w in warmup]
